@@ -225,5 +225,10 @@ FToInt(b) ==
           ELSE IF e < -24 THEN 0
           ELSE (IF FNegBit(b) THEN -(m \div 2^(-e)) ELSE m \div 2^(-e))
 
+\* is the truncation of b representable as a 32-bit integer? (otherwise "any in-type value is acceptable")
+FToIntFits(b) ==
+  /\ ~FIsNaN(b) /\ ~FIsInf(b)
+  /\ (FExp(b) = 0 \/ FExp(b) - 150 <= 7 \/ (FNegBit(b) /\ FMan(b) = 0 /\ FExp(b) - 150 = 8))
+
 FFromBool(x) == IF x THEN FOne ELSE FPosZero
 =============================================================================
